@@ -203,6 +203,31 @@ pub fn check_case(c: &TCase, rec: &mut Rec) -> Verdict {
             rec.nontrivial(key_of(&text));
         }
         rec.sample(|| format!("{text}"));
+        // a parse that fails must leave nothing behind on this thread: cut the text at a generated position and
+        // inside its first string literal / display name, have both prefixes rejected (or accepted), then go on
+        let cut = |at: usize| -> &str {
+            let mut at = at.min(text.len());
+            while !text.is_char_boundary(at) {
+                at -= 1;
+            }
+            &text[..at]
+        };
+        let at = c.choices.first().map_or(0, |b| (*b as usize * (text.len() + 1)) >> 8);
+        let mut rejected = 0;
+        if Filter::try_from(cut(at)).is_err() {
+            rejected += 1;
+        }
+        if let Some(q) = text.find('"') {
+            if Filter::try_from(cut(q + 3)).is_err() {
+                rejected += 1;
+            }
+            if Filter::try_from(format!("{}\\q", cut(q + 2)).as_str()).is_err() {
+                rejected += 1;
+            }
+        }
+        if rejected > 0 {
+            rec.class("preceded-by-a-rejected-parse-on-the-same-thread");
+        }
         let parsed = match Filter::try_from(text.as_str()) {
             Ok(f) => f,
             Err(e) => return Verdict::fail(format!("C08:print-parse:rejected:{sh}"), format!("printed filter `{text}` does not parse: {e}")),
@@ -286,7 +311,7 @@ pub fn wide_tcase() -> BoxedStrategy<TCase> {
 }
 
 pub fn run(ctx: &mut Ctx) {
-    ctx.rule("generated: filter trees with all term kinds (has, not, six comparisons, *==, ^symbol, relationship), literals of every kind the syntax admits (strings with escapes, numbers with units, dates, times, timestamps with zones, refs with display names, uris, symbols, booleans), paths of 1-4 segments, names other than the keywords; oracles: (1) Filter::try_from(t.to_string()) equals t structurally (literals strictly: Ref dis and zone checked; *==/relation refs by id since Display omits dis), (2) the reference printer's text with random legal spacing and line breaks parses to exactly t (precedence, grouping, where a path ends), (3) a second print-parse round gives the same tree, (4) a Visitor sees the nodes of t in order; non-trivial: >= 2 terms or a multi-segment path or a literal needing escape/unit/zone/dis; distinct by text; a second generator makes *wide* filters: 2-1100 sibling terms, about half of them parenthesised groups, joined by or / and / both / inside one group");
+    ctx.rule("generated: filter trees with all term kinds (has, not, six comparisons, *==, ^symbol, relationship), literals of every kind the syntax admits (strings with escapes, numbers with units, dates, times, timestamps with zones, refs with display names, uris, symbols, booleans), paths of 1-4 segments, names other than the keywords; oracles: (1) Filter::try_from(t.to_string()) equals t structurally (literals strictly: Ref dis and zone checked; *==/relation refs by id since Display omits dis), (2) the reference printer's text with random legal spacing and line breaks parses to exactly t (precedence, grouping, where a path ends), (3) a second print-parse round gives the same tree, (4) a Visitor sees the nodes of t in order, (5) each case first has up to three damaged prefixes of its text parsed (and rejected) on the same thread - a failed parse must not influence the next one; non-trivial: >= 2 terms or a multi-segment path or a literal needing escape/unit/zone/dis; distinct by text; a second generator makes *wide* filters: 2-1100 sibling terms, about half of them parenthesised groups, joined by or / and / both / inside one group");
     let depth = ctx.tier.pick(2, 3) as u32;
     ctx.run_sub::<TCase>("print-parse", ctx.tier.pick(80_000, 1_600_000), &move || tcase(depth), &check_case);
     ctx.run_sub::<TCase>("print-parse-wide", ctx.tier.pick(1_600, 32_000), &wide_tcase, &check_case);
